@@ -1,4 +1,5 @@
 import Flowjaxv.Proofs.ArgCheck
+import Flowjaxv.Proofs.CtorsGen
 /-!
 # C13 — malformed inputs are rejected, never silently broadcast
 
@@ -9,8 +10,14 @@ What the statements are about:
   from /repo by `tools/py2lean/structure.py` (statement-by-statement translation);
 * `Gen.Structure.*` — the class table, the `__init_subclass__` hook facts and the distribution facts, REGENERATED
   from the AST of /repo (`decide` below runs over that table, which is the whole finite domain);
-* `ArgCheck.*` (`Model/ArgCheck.lean`) — hand-written executable models of the wrapper, the distribution vectoriser
-  and the constructor checks, tied to the real code by `tools/props/c13.py`.
+* `GenCtors.*` (`Gen/CtorsGen.lean`) — the constructors and argument checks (`check_shapes_match`,
+  `merge_cond_shapes`, `Chain/Concatenate/Stack/Reshape/EmbedCondition/Vmap.__init__`, `_argcheck_shapes`,
+  `Partial/Reshape/AbstractTransformed.__check_init__`, `Vmap.get_cond_shape`, the `shape` / `cond_shape` properties of
+  `Invert`, `Scan`, `Vmap`, `EmbedCondition`, `Partial`) REGENERATED from /repo by `tools/py2lean/py2ctor.py` as
+  exception-valued functions (`Except Err …`, statements and sub-expressions chained in source order);
+* `ArgCheck.*` (`Model/ArgCheck.lean`, `Model/ArgCheckExt.lean`) — hand-written executable models of the wrapper, the
+  distribution vectoriser and the constructor checks, tied to the real code by `tools/props/c13.py` and — the
+  constructor checks — proved EQUAL to the regenerated definitions (section "regenerated constructors" below).
 
 Shapes are arbitrary `List Nat` (any rank, any sizes): "scalar for vector", "size-1 axis", "extra leading axis",
 "transposed" are all instances of `≠`.
@@ -361,5 +368,252 @@ theorem misc_ctor_instances :
     triangularCtor [] [3, 2] = .error .valueError ∧ triangularCtor [] [3, 3, 3] = .error .valueError ∧
     scalarUnconditionalCheck [] none = .ok () ∧ scalarUnconditionalCheck [1] none = .error .valueError := by
   decide
+
+/-! ## regenerated constructors
+
+`Gen/CtorsGen.lean` is translated from the source on every run; each definition is the hand model above (same
+exception or same declared shapes — for ALL lists of children, axes, shapes, indices), so every constructor theorem
+of this file is restated about what the code says now. -/
+section Regenerated
+open PyCtor
+
+/-- regenerated `check_shapes_match` = hand model, every list of shapes -/
+theorem gen_check_shapes_match_eq (shapes : List Shape) :
+    GenCtors.checkShapesMatch shapes = checkShapesMatch shapes := CtorsGen.gen_check_shapes_match_eq shapes
+
+/-- regenerated `merge_cond_shapes` = hand model, every list of optional shapes -/
+theorem gen_merge_cond_shapes_eq (conds : List (Option Shape)) :
+    GenCtors.mergeCondShapes conds = mergeCondShapes conds := CtorsGen.gen_merge_cond_shapes_eq conds
+
+/-- regenerated `Chain.__init__` = `chainCtor`: same exception, or the same declared `(shape, cond_shape)` -/
+theorem gen_chain_ctor_eq (bs : List SB) :
+    (GenCtors.Chain.init bs).map (fun r => (r.shape, r.cond_shape)) =
+      chainCtor (bs.map (·.shape)) (bs.map (·.cond_shape)) := CtorsGen.gen_chain_ctor_eq bs
+
+/-- regenerated `Concatenate._argcheck_shapes` (the loop comparing every axis but `axis`) = hand model, every axis -/
+theorem gen_concatenate_argcheck_eq (axis : Int) (shapes : List Shape) :
+    GenCtors.Concatenate.argcheckShapes axis shapes = concatenateArgcheck shapes axis :=
+  CtorsGen.gen_concatenate_argcheck_eq axis shapes
+
+/-- regenerated `Concatenate.__init__` = `concatenateCtor`, every list of children, every axis (negative included) -/
+theorem gen_concatenate_ctor_eq (bs : List SB) (axis : Int) :
+    (GenCtors.Concatenate.init bs axis).map (fun r => (r.shape, r.cond_shape)) =
+      concatenateCtor (bs.map (·.shape)) (bs.map (·.cond_shape)) axis := CtorsGen.gen_concatenate_ctor_eq bs axis
+
+/-- … its other fields: `axis` as given, `split_idxs` the running sums of the children's sizes along the normalised
+axis (last child dropped) -/
+theorem gen_concatenate_fields (bs : List SB) (axis : Int) (r : GenCtors.ConcatenateF)
+    (h : GenCtors.Concatenate.init bs axis = .ok r) :
+    r.axis = axis ∧ ∃ s0 ax, (bs.map (·.shape)).head? = some s0 ∧ normAxis s0.length axis = .ok ax ∧
+      r.split_idxs = accumulate ((bs.map (fun b => b.shape[ax]?.getD 0)).dropLast) :=
+  CtorsGen.gen_concatenate_fields bs axis r h
+
+/-- regenerated `Stack.__init__` = `stackCtor` -/
+theorem gen_stack_ctor_eq (bs : List SB) (axis : Int) :
+    (GenCtors.Stack.init bs axis).map (fun r => (r.shape, r.cond_shape)) =
+      stackCtor (bs.map (·.shape)) (bs.map (·.cond_shape)) axis := CtorsGen.gen_stack_ctor_eq bs axis
+
+/-- regenerated `Partial.__check_init__` = `partialCheck` (JAX static indexing stays the hand-modelled primitive
+`indexShape`), and the whole constructor as Equinox runs it -/
+theorem gen_partial_check_eq (b : SB) (i : Idx) (shape : Shape) :
+    GenCtors.Partial.checkInit b i shape = partialCheck shape i b.shape ∧
+      GenCtors.Partial.ctor b i shape = (partialCheck shape i b.shape).map (fun _ => ⟨b, i, shape⟩) :=
+  ⟨CtorsGen.gen_partial_check_eq b i shape, CtorsGen.gen_partial_ctor_eq b i shape⟩
+
+/-- regenerated `Reshape.__check_init__` (the `for k, v in shapes.items()` loop) = `reshapeCheck`; `__init__` followed
+by it = `reshapeCtor` -/
+theorem gen_reshape_check_eq (b : SB) (shape : Shape) (cond shape? cond? : Option Shape) :
+    GenCtors.Reshape.checkInit b shape cond = reshapeCheck shape cond b.shape b.cond_shape ∧
+      (GenCtors.Reshape.ctor b shape? cond?).map (fun r => (r.shape, r.cond_shape)) =
+        reshapeCtor b.shape b.cond_shape shape? cond? :=
+  ⟨CtorsGen.gen_reshape_check_eq b shape cond, CtorsGen.gen_reshape_ctor_eq b shape? cond?⟩
+
+/-- regenerated `EmbedCondition.__init__` + `shape` property: never raises, declares the wrapped bijection's shape
+and the raw condition shape -/
+theorem gen_embed_ctor_eq (b : SB) (raw : Shape) :
+    (GenCtors.EmbedCondition.init b raw).bind
+        (fun r => (GenCtors.EmbedCondition.shape r.bijection).map (fun s => (s, some r.cond_shape))) =
+      embedCtor b.shape raw ∧ embedCtor b.shape raw = .ok (b.shape, some raw) :=
+  ⟨CtorsGen.gen_embed_ctor_eq b raw, rfl⟩
+
+/-- regenerated `Vmap.__init__` (`in_axes` XOR `axis_size`, `get_cond_shape`) + `shape` property = `vmapCtor` -/
+theorem gen_vmap_ctor_eq (b : VB) (inAxes : Option InAxes) (axisSize : Option Nat) (condAx : Option Int) :
+    (GenCtors.Vmap.init b inAxes axisSize condAx).bind
+        (fun r => (GenCtors.Vmap.shape r.axis_size r.bijection).map (fun s => (s, r.cond_shape))) =
+      vmapCtor b inAxes axisSize condAx := CtorsGen.gen_vmap_ctor_eq b inAxes axisSize condAx
+
+/-- regenerated `AbstractTransformed.__check_init__` = hand model -/
+theorem gen_transformed_check_eq (base bij : SB) :
+    GenCtors.Transformed.checkInit base bij = transformedCheckInit base.cond_shape bij.cond_shape :=
+  CtorsGen.gen_transformed_check_eq base bij
+
+/-- regenerated `shape` / `cond_shape` properties of `Invert`, `Scan`, `Partial.cond_shape`: the wrapped bijection's -/
+theorem gen_wrapper_shapes_eq (b : SB) :
+    GenCtors.Invert.shape b = .ok b.shape ∧ GenCtors.Invert.condShape b = .ok b.cond_shape ∧
+    GenCtors.Scan.shape b = .ok b.shape ∧ GenCtors.Scan.condShape b = .ok b.cond_shape ∧
+    GenCtors.Partial.condShape b = .ok b.cond_shape := CtorsGen.gen_wrapper_shapes_eq b
+
+/-! ### the constructor theorems, on the regenerated definitions -/
+
+theorem gen_check_shapes_match_rejects_iff (shapes : List Shape) :
+    GenCtors.checkShapesMatch shapes = .error .valueError ↔ ∃ s ∈ shapes, ∃ t ∈ shapes, s ≠ t := by
+  rw [gen_check_shapes_match_eq]; exact check_shapes_match_ctor_rejects_iff shapes
+
+theorem gen_merge_cond_shapes_spec (conds : List (Option Shape)) (r : Option Shape) :
+    GenCtors.mergeCondShapes conds = .ok r ↔
+      conds ≠ [] ∧ ((r = none ∧ ∀ s ∈ conds, s = none) ∨
+        ∃ c, r = some c ∧ some c ∈ conds ∧ ∀ s ∈ conds, s = none ∨ s = some c) := by
+  rw [gen_merge_cond_shapes_eq]; exact merge_cond_shapes_spec conds r
+
+theorem gen_merge_cond_shapes_rejects_iff (conds : List (Option Shape)) :
+    (∀ r, GenCtors.mergeCondShapes conds ≠ .ok r) ↔ ¬ CondCompatible conds := by
+  rw [gen_merge_cond_shapes_eq]; exact merge_cond_shapes_ctor_rejects_iff conds
+
+/-- the regenerated `Chain(bijections)` is accepted IFF there is at least one bijection, all shapes are equal and the
+condition shapes merge; it declares the common shape and the merged condition shape -/
+theorem gen_chain_ctor_rejects_iff (bs : List SB) (s : Shape) (c : Option Shape) :
+    GenCtors.Chain.init bs = .ok ⟨s, c⟩ ↔
+      (∃ rest, bs.map (·.shape) = s :: rest ∧ ∀ t ∈ bs.map (·.shape), t = s) ∧
+        GenCtors.mergeCondShapes (bs.map (·.cond_shape)) = .ok c := by
+  rw [gen_merge_cond_shapes_eq, ← chain_ctor_rejects_iff, ← gen_chain_ctor_eq, CtorsGen.map_eq_ok_iff]
+  constructor
+  · intro h; exact ⟨_, h, rfl⟩
+  · rintro ⟨⟨s', c'⟩, h, h2⟩
+    simp only [Prod.mk.injEq] at h2
+    obtain ⟨rfl, rfl⟩ := h2; exact h
+
+/-- the regenerated `Concatenate(bijections, axis)` is accepted exactly when `jnp.concatenate` of arrays of the
+children's shapes is, and declares exactly its result shape — every axis, negative ones included -/
+theorem gen_concatenate_shape_spec (bs : List SB) (axis : Int) (s : Shape) (c : Option Shape) :
+    (∃ r, GenCtors.Concatenate.init bs axis = .ok r ∧ r.shape = s ∧ r.cond_shape = c) ↔
+      jnpConcatenateShape (bs.map (·.shape)) axis = some s ∧
+        GenCtors.mergeCondShapes (bs.map (·.cond_shape)) = .ok c := by
+  rw [gen_merge_cond_shapes_eq, ← concatenate_shape_spec, ← gen_concatenate_ctor_eq, CtorsGen.map_eq_ok_iff]
+  simp only [Prod.mk.injEq]
+
+theorem gen_concatenate_ctor_rejects_iff (bs : List SB) (axis : Int) :
+    (∀ r, GenCtors.Concatenate.init bs axis ≠ .ok r) ↔
+      ¬ (ConcatCompatible (bs.map (·.shape)) axis ∧ CondCompatible (bs.map (·.cond_shape))) := by
+  rw [← concatenate_ctor_rejects_iff, ← gen_concatenate_ctor_eq]
+  constructor
+  · intro h r hr
+    obtain ⟨r', h1, -⟩ := (CtorsGen.map_eq_ok_iff _ _ _).1 hr
+    exact h r' h1
+  · intro h r hr
+    exact h (r.shape, r.cond_shape) (by rw [hr]; rfl)
+
+/-- the regenerated `Stack(bijections, axis)` is accepted exactly when `jnp.stack` is, with exactly its result shape -/
+theorem gen_stack_shape_spec (bs : List SB) (axis : Int) (s : Shape) (c : Option Shape) :
+    (∃ r, GenCtors.Stack.init bs axis = .ok r ∧ r.shape = s ∧ r.cond_shape = c) ↔
+      jnpStackShape (bs.map (·.shape)) axis = some s ∧ GenCtors.mergeCondShapes (bs.map (·.cond_shape)) = .ok c := by
+  rw [gen_merge_cond_shapes_eq, ← stack_shape_spec, ← gen_stack_ctor_eq, CtorsGen.map_eq_ok_iff]
+  simp only [Prod.mk.injEq]
+
+theorem gen_stack_ctor_rejects_iff (bs : List SB) (axis : Int) :
+    (∀ r, GenCtors.Stack.init bs axis ≠ .ok r) ↔
+      ¬ (StackCompatible (bs.map (·.shape)) axis ∧ CondCompatible (bs.map (·.cond_shape))) := by
+  rw [← stack_ctor_rejects_iff, ← gen_stack_ctor_eq]
+  constructor
+  · intro h r hr
+    obtain ⟨r', h1, -⟩ := (CtorsGen.map_eq_ok_iff _ _ _).1 hr
+    exact h r' h1
+  · intro h r hr
+    exact h (r.shape, r.cond_shape) (by rw [hr]; rfl)
+
+/-- the regenerated `Partial(bijection, idxs, shape)` (dataclass `__init__` then `__check_init__`) is accepted exactly
+when the bijection fits the indexed part — same exclusion as `partial_ctor_rejects_iff_partial` (the out-of-range
+integer of the known finding) -/
+theorem gen_partial_ctor_rejects_iff_partial (b : SB) (i : Idx) (shape : Shape) (h : ¬ IntOutOfRange shape i) :
+    GenCtors.Partial.ctor b i shape = .ok ⟨b, i, shape⟩ ↔ PartialFits shape i b.shape := by
+  rw [(gen_partial_check_eq b i shape).2, ← partial_ctor_rejects_iff_partial shape i b.shape h,
+    CtorsGen.map_eq_ok_iff]
+  constructor
+  · rintro ⟨⟨⟩, h1, -⟩; exact h1
+  · intro h1; exact ⟨(), h1, rfl⟩
+
+/-- the known finding on the regenerated constructor: every integer index on a non-empty axis is accepted -/
+theorem gen_partial_oob_int_accepted (n : Nat) (rest : Shape) (c : Option Shape) (i : Int) (hn : 0 < n) :
+    GenCtors.Partial.ctor ⟨rest, c⟩ (.int i) (n :: rest) = .ok ⟨⟨rest, c⟩, .int i, n :: rest⟩ := by
+  rw [(gen_partial_check_eq _ _ _).2, partial_oob_int_accepted n rest i hn]; rfl
+
+/-- the regenerated `Reshape(bijection, shape, cond_shape)` is accepted IFF the element counts agree and `cond_shape`
+is left unchanged or reshapes an existing condition shape to the same element count -/
+theorem gen_reshape_ctor_rejects_iff (b : SB) (shape? cond? : Option Shape) (s : Shape) (c : Option Shape) :
+    GenCtors.Reshape.ctor b shape? cond? = .ok ⟨b, s, c⟩ ↔
+      s = shape?.getD b.shape ∧ ArgCheck.prod s = ArgCheck.prod b.shape ∧
+        ((cond? = none ∧ c = b.cond_shape) ∨
+          ∃ a b', cond? = some a ∧ b.cond_shape = some b' ∧ c = some a ∧ ArgCheck.prod a = ArgCheck.prod b') := by
+  rw [← reshape_ctor_rejects_iff, ← (gen_reshape_check_eq b s c shape? cond?).2, CtorsGen.map_eq_ok_iff]
+  constructor
+  · intro h; exact ⟨_, h, rfl⟩
+  · rintro ⟨r, h, h2⟩
+    have hb := CtorsGen.gen_reshape_ctor_bijection b shape? cond? r h
+    rcases r with ⟨rb, rs, rc⟩
+    simp only [Prod.mk.injEq] at h2
+    obtain ⟨rfl, rfl⟩ := h2
+    simp only at hb; subst hb; exact h
+
+theorem gen_reshape_ctor_error_class (b : SB) (shape? cond? : Option Shape) (e : Err)
+    (h : GenCtors.Reshape.ctor b shape? cond? = .error e) : e = .valueError := by
+  apply reshape_ctor_error_class b.shape b.cond_shape shape? cond? e
+  rw [← (gen_reshape_check_eq b [] none shape? cond?).2, h]; rfl
+
+theorem gen_transformed_ctor_rejects_iff (base bij : SB) :
+    GenCtors.Transformed.checkInit base bij = .error .valueError ↔
+      ∃ s t, base.cond_shape = some s ∧ bij.cond_shape = some t ∧ s ≠ t := by
+  rw [gen_transformed_check_eq]; exact transformed_ctor_rejects_iff _ _
+
+/-- **`Vmap`** (hand model = regenerated `__init__` by `gen_vmap_ctor_eq`): accepted IFF exactly one of `in_axes` /
+`axis_size` is given — `in_axes` free of unwrappables and mapping at least one array leaf along a valid axis; the batch
+size `n` is then that leaf's axis size — and the condition axis, when the bijection is conditional and the condition is
+mapped, lies in `[-(rank+1), rank+1)`; it declares `(n, *bijection.shape)` and the condition shape with `n` inserted at
+the normalised axis. -/
+theorem gen_vmap_ctor_rejects_iff (b : VB) (ia : Option InAxes) (n? : Option Nat) (ca : Option Int) (s : Shape)
+    (c : Option Shape) :
+    (GenCtors.Vmap.init b ia n? ca).bind
+        (fun r => (GenCtors.Vmap.shape r.axis_size r.bijection).map (fun s => (s, r.cond_shape))) = .ok (s, c) ↔
+      ∃ n, ((ia = none ∧ n? = some n) ∨
+          ∃ a, ia = some a ∧ n? = none ∧ a.hasUnwrappable = false ∧ inferAxisSize b a = .ok n) ∧
+        s = n :: b.shape ∧
+        (((b.cond_shape = none ∨ ca = none) ∧ c = b.cond_shape) ∨
+          ∃ cs ax k, b.cond_shape = some cs ∧ ca = some ax ∧ normAxis (cs.length + 1) ax = .ok k ∧
+            c = some (cs.insertIdx k n)) := by
+  rw [gen_vmap_ctor_eq]; exact CtorsGen.vmapCtor_ok_iff b ia n? ca s c
+
+/-- every rejection of `Vmap` is a `ValueError` (both / neither of `in_axes`, `axis_size`; unwrappables in `in_axes`;
+no mapped leaf) or an `IndexError` (an axis out of range) -/
+theorem gen_vmap_ctor_error_class (b : VB) (ia : Option InAxes) (n? : Option Nat) (ca : Option Int) (e : Err)
+    (h : (GenCtors.Vmap.init b ia n? ca).bind
+        (fun r => (GenCtors.Vmap.shape r.axis_size r.bijection).map (fun s => (s, r.cond_shape))) = .error e) :
+    e = .valueError ∨ e = .indexError := by
+  rw [gen_vmap_ctor_eq] at h; exact CtorsGen.vmapCtor_err b ia n? ca e h
+
+/-- kernel evaluation of the regenerated definitions on the worked instances (negative axes, rank mismatch, an empty
+list, `()` as a condition shape, a `cond_shape` for an unconditional `Reshape`, `Vmap` with a negative condition axis) -/
+theorem gen_ctor_instances :
+    (GenCtors.Concatenate.init [⟨[2, 3], none⟩, ⟨[2, 4], some [1]⟩] (-1)).map (fun r => (r.shape, r.cond_shape, r.split_idxs))
+      = .ok ([2, 7], some [1], [3]) ∧
+    (GenCtors.Concatenate.init [⟨[2, 3], none⟩, ⟨[1, 3], none⟩] 1).map (fun r => r.shape) = .error .valueError ∧
+    (GenCtors.Concatenate.init [⟨[2, 3], none⟩, ⟨[2], none⟩] 1).map (fun r => r.shape) = .error .indexError ∧
+    (GenCtors.Concatenate.init [] 0).map (fun r => r.shape) = .error .indexError ∧
+    (GenCtors.Stack.init [⟨[2, 3], none⟩, ⟨[2, 3], none⟩] (-1)).map (fun r => r.shape) = .ok [2, 3, 2] ∧
+    (GenCtors.Stack.init [⟨[2, 3], none⟩, ⟨[2, 3], none⟩] 3).map (fun r => r.shape) = .error .indexError ∧
+    GenCtors.checkShapesMatch [[3], [3, 1]] = .error .valueError ∧
+    GenCtors.mergeCondShapes [some [], none] = .ok (some []) ∧
+    GenCtors.mergeCondShapes [some [], some [1]] = .error .valueError ∧
+    GenCtors.mergeCondShapes [] = .error .valueError ∧
+    (GenCtors.Chain.init [⟨[3], some [2]⟩, ⟨[3], none⟩]).map (fun r => (r.shape, r.cond_shape)) = .ok ([3], some [2]) ∧
+    (GenCtors.Reshape.ctor ⟨[2, 3], none⟩ (some [6]) none).map (fun r => r.shape) = .ok [6] ∧
+    (GenCtors.Reshape.ctor ⟨[2, 3], none⟩ (some [5]) none).map (fun r => r.shape) = .error .valueError ∧
+    (GenCtors.Reshape.ctor ⟨[2], none⟩ none (some [3])).map (fun r => r.shape) = .error .valueError ∧
+    GenCtors.Partial.checkInit ⟨[2], none⟩ (.slice (some 0) (some 2) none) [3] = .ok () ∧
+    GenCtors.Partial.checkInit ⟨[1], none⟩ (.slice (some 0) (some 2) none) [3] = .error .valueError ∧
+    (GenCtors.Vmap.init ⟨[3], some [2], []⟩ none (some 4) (some (-1))).map (fun r => r.cond_shape) = .ok (some [2, 4]) ∧
+    (GenCtors.Vmap.init ⟨[3], some [2], []⟩ none none none).map (fun r => r.cond_shape) = .error .valueError ∧
+    (GenCtors.Vmap.init ⟨[3], none, [[5, 3]]⟩ (some ⟨[some 0], false⟩) none none).map (fun r => r.axis_size) = .ok 5 :=
+  ⟨by decide, by decide, by decide, by decide, by decide, by decide, by decide, by decide, by decide, by decide,
+   by decide, by decide, by decide, by decide, by decide, by decide, by decide, by decide, by decide⟩
+
+end Regenerated
 
 end C13
